@@ -252,7 +252,13 @@ func (s *store) authenticate(username, password string) (result authenticateResu
 	result.ok, result.isAdmin, result.upgradeable, result.lastChanged, result.err = s.dir.Authenticate(username, password)
 	if result.ok && result.upgradeable && s.upgradeChan != nil {
 		verifEvent("upgrade.enqueue", username, len(s.upgradeChan), cap(s.upgradeChan))
-		s.upgradeChan <- updateRequest{username: username, password: password}
+		// upgrades are opportunistic: never block here, in local mode the upgrade
+		// queue is our own update queue and nobody else would ever drain it.
+		select {
+		case s.upgradeChan <- updateRequest{username: username, password: password}:
+		default:
+			wdl.Printf("upgrade: ignoring upgrade request for '%s', queue is full", username)
+		}
 	}
 	return
 }
